@@ -1,6 +1,6 @@
 """C12 - driving force, phase boundary and critical radius agree with each other.
 
-proof:          coq/C12/Properties.v (22 theorems about coq/C12/Model.v): growth-sign algebra of the
+proof:          coq/C12/Properties.v (25 theorems about coq/C12/Model.v): growth-sign algebra of the
                 multicomponent rate (sign change exactly at Rcrit = 2 f gamma / dG_v, Rmin clamp, no driving
                 force => every class shrinks, nuclei grow), the same for the binary rate under explicit
                 backend premises (DG strictly increasing, DG(x_alpha(g)) = g + offset), with the exact
@@ -36,7 +36,13 @@ search:         oracles written from the property text, independent of the Coq m
                     g, bisection root of DG(x) = g against getInterfacialComposition, DG increasing in x,
                     sign change at the solvus, x_alpha increasing in g, sentinel monotone, the four
                     driving-force methods (sign; value to the offset for stoichiometric Al3Zr).
+                    Systems include precipitates whose formula unit is not one mole of atoms (Al-Mg BETA_AL3MG2, 229
+                    atoms; Al-Mg-Si, five stoichiometric phases with 2.8 ... 19 atoms, multicomponent backend), and a
+                    kawin-free reference: tangent-plane distance to the compound from pycalphad's plain models.
                 (3) is sampling only (level: exploration) - pycalphad is not modelled.
+                (4) ExtraGibbsModel (the precipitate model carrying GE): GM and G of the real symbolic models of nine
+                    phases evaluated at random points against extra_gm / extra_g of the Coq model, and against
+                    'GE raises the energy per mole of atoms by GE in both properties'.
 """
 import contextlib, io, json, math, time, types, warnings
 from fractions import Fraction
@@ -159,7 +165,8 @@ class StubTernary:
     _growthRateOutputFromCurvature with closed-form curvature terms."""
     numElements = 3
     elements = ['A', 'B', 'C', 'VA']
-    P = {'B1': ((0.2, 0.05), (1.5e-3, 2e-3))}        # precipitate composition, solvus composition at 700 K
+    P = {'B1': ((0.2, 0.05), (1.5e-3, 2e-3)),        # precipitate composition, solvus composition at 700 K
+         'B2': ((0.1, 0.3), (2.5e-3, 1.2e-3))}
 
     def __init__(self, phases=('B1',), D=2e-17):
         self.phases = ['ALPHA'] + list(phases)
@@ -675,27 +682,33 @@ def run_config(cfg):
         m = make_binary_model(cfg, therm)
         off = therm.gOffset
     elif be == 'ternary':
-        therm = StubTernary()
+        # one or several precipitate phases; every per-phase parameter (interfacial energy, molar volume, shape, strain
+        # energy, Rmin) may differ between the phases: 'gammas', 'vratios', 'shapes', 'strains' are lists over the phases
+        phs = list(cfg.get('phases', ['B1']))
+        therm = StubTernary(phs)
         log = therm
-        m = PrecipitateModel(phases=['B1'], elements=['B', 'C'])
+        m = PrecipitateModel(phases=phs, elements=['B', 'C'])
         m.setPBMParameters(cMin=1e-10, cMax=1e-8, bins=60, minBins=40, maxBins=80)
         m.setInitialComposition(cfg.get('x0', [0.012, 0.008]))
-        m.setInterfacialEnergy(cfg.get('gamma', 0.12))
         with quiet():
             m.setTemperature(cfg.get('T', 700.0))
         a = 0.4e-9
         m.setVolumeAlpha(a ** 3, VolumeParameter.ATOMIC_VOLUME, 4)
-        m.setVolumeBeta(a ** 3 / cfg.get('vratio', 1.0), VolumeParameter.ATOMIC_VOLUME, 4)
-        m.setNucleationSite(cfg.get('site', 'bulk'))
         m.setNucleationDensity(bulkN0=1e28)
-        if cfg.get('shape', 'sphere') != 'sphere':
-            m.setPrecipitateShape(cfg['shape'], ratio=cfg.get('ar', 2.0))
-        if cfg.get('strain', 0):
-            se = StrainEnergy()
-            se.setConstantElasticEnergy(cfg['strain'])
-            m.setStrainEnergy(se)
-        if 'rmin' in cfg:
-            m.precipitateParameters[0].Rmin = cfg['rmin']
+        for i, ph in enumerate(phs):
+            m.setInterfacialEnergy(cfg.get('gammas', [cfg.get('gamma', 0.12)] * len(phs))[i], phase=ph)
+            m.setVolumeBeta(a ** 3 / cfg.get('vratios', [cfg.get('vratio', 1.0)] * len(phs))[i], VolumeParameter.ATOMIC_VOLUME, 4, phase=ph)
+            m.setNucleationSite(cfg.get('site', 'bulk'), phase=ph)
+            shape, ar = cfg.get('shapes', [(cfg.get('shape', 'sphere'), cfg.get('ar', 2.0))] * len(phs))[i]
+            if shape != 'sphere':
+                m.setPrecipitateShape(shape, phase=ph, ratio=ar)
+            strain = cfg.get('strains', [cfg.get('strain', 0)] * len(phs))[i]
+            if strain:
+                se = StrainEnergy()
+                se.setConstantElasticEnergy(strain)
+                m.setStrainEnergy(se, phase=ph)
+            if 'rmin' in cfg:
+                m.precipitateParameters[i].Rmin = cfg['rmin']
         m.setThermodynamics(therm)
         off = 0.0
     elif be == 'alzr':
@@ -912,6 +925,9 @@ def quick_configs():
         {'name': 'alzr-heat-hold', 'backend': 'alzr', 'T': ([0, 1.0 / 3600, 9.0 / 3600, 1], [715.15, 715.15, 723.15, 723.15]), 'constraints': {'maxTempChange': 0.0}, 'tf': 20.0, 'maxsteps': 400},
         {'name': 'dilute-two-phases-rk4', 'backend': 'dilute', 'off': 1.0, 'phases': ['B1', 'B3'], 'gammas': [0.15, 0.16], 'iterator': 'rk4', 'tf': 5.0, 'maxsteps': 500},
         {'name': 'ternary', 'backend': 'ternary', 'tf': 2e3, 'maxsteps': 1200},
+        # several precipitate phases on the multicomponent path, each with its own interfacial energy, molar volume, shape and strain
+        {'name': 'ternary-two-phases', 'backend': 'ternary', 'phases': ['B1', 'B2'], 'gammas': [0.14, 0.09], 'vratios': [1.0, 0.9],
+         'shapes': [('sphere', 1.0), ('needle', 2.0)], 'strains': [0, 2e7], 'tf': 1e3, 'maxsteps': 900},
         {'name': 'ternary-strain-plate', 'backend': 'ternary', 'strain': 4e7, 'shape': 'plate', 'ar': 3.0, 'tf': 2e3, 'maxsteps': 1200},
         {'name': 'alzr', 'backend': 'alzr', 'tf': 300.0, 'maxsteps': 600},
         {'name': 'nicral', 'backend': 'nicral', 'tf': 2.0, 'maxsteps': 150},
@@ -930,6 +946,10 @@ def random_config(rng, k):
     if rng.random() < 0.3:
         cfg['rmin'] = float(rng.choice([3e-10, 8e-10, 2e-9]))
     if be == 'ternary':
+        if rng.random() < 0.4:
+            cfg['phases'] = ['B1', 'B2']
+            cfg['gammas'] = [float(np.round(rng.uniform(0.08, 0.16), 3)) for _ in range(2)]
+            cfg['vratios'] = [1.0, float(rng.choice([0.9, 1.0, 1.1]))]
         cfg['tf'] = float(10 ** rng.uniform(2, 3.5))
         cfg['x0'] = [float(np.round(rng.uniform(0.008, 0.015), 4)), float(np.round(rng.uniform(0.006, 0.01), 4))]
     else:
@@ -947,6 +967,93 @@ def random_config(rng, k):
 
 # ==========================================================================================
 # (e) backend sampling (pycalphad): the premises of the binary theorems and the remaining clauses
+_DBS = {}
+REF = {'Al-Zr': ('alzr', ['AL', 'ZR', 'VA'], 'FCC_A1', 'AL3ZR', ['ZR']),
+       'Al-Mg': ('almgsi', ['AL', 'MG', 'VA'], 'FCC_A1', 'BETA_AL3MG2', ['MG']),
+       'Al-Mg-Si': ('almgsi', ['AL', 'MG', 'SI', 'VA'], 'FCC_A1', None, ['MG', 'SI'])}
+
+
+def ref_dg(system, x, T, prec=None):
+    """driving force of a STOICHIOMETRIC precipitate straight from the property text, with pycalphad alone (plain database
+    models, nothing of kawin): distance per mole of atoms between the tangent plane of the matrix at composition x and the
+    molar Gibbs energy of the compound,  sum_i x_i^beta mu_i(x, T) - GM_beta(T)"""
+    from pycalphad import Database, equilibrium, calculate, variables as v
+    from kawin.tests.datasets import ALZR_TDB, ALMGSI_DB
+    src, comps, matrix, p0, solutes = REF[system]
+    prec = prec or p0
+    if src not in _DBS:
+        _DBS[src] = Database({'alzr': ALZR_TDB, 'almgsi': ALMGSI_DB}[src])
+    db = _DBS[src]
+    cond = {v.T: float(T), v.P: 101325, v.N: 1}
+    cond.update({v.X(e): float(xe) for e, xe in zip(solutes, np.atleast_1d(x))})
+    with quiet():
+        eq = equilibrium(db, comps, [matrix], cond)
+        pts = calculate(db, comps, prec, T=float(T), P=101325, output='GM')
+    mu = np.squeeze(eq.MU.values)
+    els = [str(c) for c in eq.component.values]
+    X = np.atleast_2d(np.squeeze(pts.X.values))
+    GM = np.atleast_1d(np.squeeze(pts.GM.values))
+    if len(GM) != 1 or not np.all(np.isfinite(mu)):
+        return None
+    pc = [str(c) for c in pts.component.values]
+    return float(np.sum(X[0] * np.array([mu[els.index(c)] for c in pc])) - GM[0])
+
+
+def sample_backend_multi(ctx, quick, plan=None):
+    """Al-Mg-Si (five stoichiometric precipitates with 2.8 ... 19 atoms per formula unit): the four driving-force methods on
+    one long-lived MulticomponentThermodynamics object each, over a temperature sequence, against each other and against
+    the pycalphad-only reference"""
+    rng = ctx.rng if plan is None else np.random.Generator(np.random.PCG64(0))
+    hits = []
+    objs = {meth: make_therm('almgsi', meth) for meth in ('tangent', 'approximate', 'sampling', 'curvature')}
+    off = float(objs['tangent'].gOffset)
+    nT = 2 if quick else 6
+    Ts = [float(np.round(400 + (i + rng.uniform(0.1, 0.9)) * 150 / nT, 1)) for i in rng.permutation(nT)]
+    stats = {'methods': 0, 'reference': 0}
+    history = []
+    if plan is not None:
+        Ts = [float(t) for t in plan['Ts']]
+    for T in Ts:
+        history.append(T)
+        comps = [[float(np.round(rng.uniform(0.004, 0.01), 5)), float(np.round(rng.uniform(0.003, 0.008), 5))],
+                 [float(np.round(rng.uniform(5e-5, 3e-4), 6)), float(np.round(rng.uniform(5e-5, 2e-4), 6))]]
+        if plan is not None:
+            comps = [plan['x']]
+        for x in comps:
+            for ph in ([plan['phase']] if plan is not None else ALMGSI_PHASES[1:] if not quick else [ALMGSI_PHASES[1 + int(k)] for k in rng.choice(5, 3, replace=False)]):
+                case = {'system': 'Al-Mg-Si', 'phase': ph, 'x': x, 'T': T, 'temperatures_queried_on_the_same_objects': list(history)}
+                vals = {}
+                for meth, th in objs.items():
+                    with quiet():
+                        d, _ = th.getDrivingForce(x, T, precPhase=ph)
+                    vals[meth] = None if d is None or np.ndim(d) > 0 else float(d)
+                ok = vals['tangent'] is not None and np.isfinite(vals['tangent'])
+                ctx.count(case, ok)
+                ctx.hist('backend', 'Al-Mg-Si')
+                if not ok:
+                    continue
+                dd = vals['tangent']
+                with quiet():
+                    ref = ref_dg('Al-Mg-Si', x, T, ph)
+                stats['reference'] += 1
+                if ref is not None and abs(dd - ref) > 0.05 + 1e-6 * abs(ref):
+                    hits.append(('dg_reference', SITE_TH, 'tangent', dict(case, tangent=dd, reference=ref),
+                                 'Al-Mg-Si %s x=%r T=%g: tangent driving force %r, tangent-plane distance to the compound (pycalphad alone) %r (ratio %.4g)' % (ph, x, T, dd, ref, dd / ref if ref else float('nan'))))
+                for meth in ('approximate', 'sampling', 'curvature'):
+                    v2 = vals[meth]
+                    stats['methods'] += 1
+                    if v2 is None or not np.isfinite(v2):
+                        continue
+                    if abs(dd) > 5 * off + 5 and np.sign(v2) != np.sign(dd):
+                        hits.append(('methods_agree', SITE_TH, 'sign ' + meth, dict(case, tangent=dd, other=v2),
+                                     'Al-Mg-Si %s x=%r T=%g (temperatures so far %r): tangent %r, %s %r' % (ph, x, T, history, dd, meth, v2)))
+                    if meth != 'curvature' and abs(v2 - dd) > 2 * off + 1e-3 * abs(dd):
+                        hits.append(('methods_agree', SITE_TH, 'value ' + meth, dict(case, tangent=dd, other=v2),
+                                     'Al-Mg-Si %s x=%r T=%g (temperatures so far %r): tangent %r, %s %r (offset %g; stoichiometric precipitate)' % (ph, x, T, history, dd, meth, v2, off)))
+    ctx.notes['backend_sampling_multi'] = stats
+    return hits
+
+
 def sample_backend(ctx, quick, plan=None):
     from kawin.thermo import BinaryThermodynamics
     from kawin.tests.datasets import ALZR_TDB
@@ -957,7 +1064,9 @@ def sample_backend(ctx, quick, plan=None):
     systems = [('Al-Zr', lambda meth: BinaryThermodynamics(ALZR_TDB, ['AL', 'ZR'], ['FCC_A1', 'AL3ZR'], drivingForceMethod=meth), None,
                 (550., 900.), 16000., True),
                ('Cu-Ti', lambda meth: BinaryThermodynamics(os.path.join(REPO, 'examples', 'CuTi.tdb'), ['CU', 'TI'], ['FCC_A1', 'CU4TI'], drivingForceMethod=meth), 0.15,
-                (560., 760.), 4500., False)]
+                (560., 760.), 4500., False),
+               # BETA_AL3MG2 is written with 89 : 140 sites: 229 atoms per formula unit
+               ('Al-Mg', lambda meth: make_therm('almg', meth), None, (420., 540.), 600., True)]
     nT = 3 if quick else 10
     ng = 14 if quick else 40
     stats = {'consistency': 0, 'bisection': 0, 'monotone_x': 0, 'solvus_sign': 0, 'xalpha_monotone': 0, 'sentinel': 0, 'methods': 0}
@@ -1003,7 +1112,15 @@ def sample_backend(ctx, quick, plan=None):
                              '%s T=%g: unstable (-1) at g=%g but stable again at g=%g' % (name, T, g[k], g[k + 1])))
             if not st[0]:
                 continue
-            gs, xs = g[st], xa[st]
+            gs, xs, xbs = g[st], xa[st], xb[st]
+            # the matrix composition stays on the matrix side of the precipitate composition (where the planar solvus is)
+            far = np.sign(xbs - xs) != np.sign(xbs[0] - xs[0])
+            if np.any(far):
+                k = int(np.argmax(far))
+                hits.append(('xalpha_monotone', SITE_TH, 'matrix composition on the far side of the precipitate', dict(case, xa=fl(xa), xb=fl(xb)),
+                             '%s T=%g: solvus x_alpha(0) = %r, precipitate %r, but x_alpha(g=%g) = %r lies beyond the precipitate composition (x_alpha(g=%g) = %r before it)' % (
+                                 name, T, float(xs[0]), float(xbs[0]), float(gs[k]), float(xs[k]), float(gs[k - 1]), float(xs[k - 1]))))
+                gs, xs, xbs = gs[~far], xs[~far], xbs[~far]
             # x_alpha rises strictly with g
             stats['xalpha_monotone'] += len(gs) - 1
             d = np.diff(xs)
@@ -1024,7 +1141,7 @@ def sample_backend(ctx, quick, plan=None):
                              '%s T=%g: x_alpha(g=%g) = %r but the driving force there is %r (offset %g)' % (name, T, gs[k], xs[k], dg[k], off)))
             # independent root of DG(x) = g by bisection (monotone DG): must lie within the offset of x_alpha(g)
             for k in ([int(i) for i in rng.choice(len(gs), min(len(gs), 2 if quick else 5), replace=False)]):
-                lo, hi = xs[k] * 0.5, min(xs[k] * 1.5, 0.999 * float(xb[st][k]))
+                lo, hi = xs[k] * 0.5, min(xs[k] * 1.5, 0.999 * float(xbs[k]))
                 with quiet():
                     flo, _ = th.getDrivingForce(lo, T)
                     fhi, _ = th.getDrivingForce(hi, T)
@@ -1050,7 +1167,7 @@ def sample_backend(ctx, quick, plan=None):
             # driving force increases with supersaturation and changes sign (to the offset) at the solvus
             xsol = xs[0]
             xx = xsol * np.array([0.3, 0.6, 0.9, 0.97, 1.03, 1.1, 1.5, 3.0, 8.0])
-            xx = xx[xx < 0.8 * xb[st][0]]
+            xx = xx[xx < 0.8 * xbs[0]]
             with quiet():
                 dd, _ = th.getDrivingForce(xx, T * np.ones(len(xx)))
             dd = np.atleast_1d(dd).astype(float)
@@ -1065,6 +1182,21 @@ def sample_backend(ctx, quick, plan=None):
                     hits.append(('dg_sign_at_solvus', SITE_TH, 'sign', dict(case, x=float(xv), dg=float(dv), solvus=float(xsol)),
                                  '%s T=%g: solvus %r, DG(x=%r) = %r' % (name, T, xsol, xv, dv)))
                     break
+            # kawin-free reference (stoichiometric precipitates): the tangent driving force is the tangent-plane distance, and the
+            # composition returned for g is where that distance equals g (to the offset)
+            if stoich and name in REF:
+                for k in sorted(set(int(i) for i in rng.choice(len(xx), min(len(xx), 2), replace=False))):
+                    ref = ref_dg(name, xx[k], T)
+                    stats['reference'] = stats.get('reference', 0) + 1
+                    if ref is not None and abs(dd[k] - ref) > 0.05 + 1e-6 * abs(ref):
+                        hits.append(('dg_reference', SITE_TH, 'tangent', dict(case, x=float(xx[k]), tangent=float(dd[k]), reference=ref),
+                                     '%s T=%g x=%r: tangent driving force %r, tangent-plane distance to the compound (pycalphad alone) %r (ratio %.4g)' % (name, T, float(xx[k]), float(dd[k]), ref, dd[k] / ref if ref else float('nan'))))
+                for k in sorted(set(int(i) for i in rng.choice(len(gs), min(len(gs), 2), replace=False))):
+                    ref = ref_dg(name, xs[k], T)
+                    stats['reference'] = stats.get('reference', 0) + 1
+                    if ref is not None and not (-0.05 - 1e-6 * gs[k] <= ref - gs[k] <= off + 0.05 + 1e-6 * gs[k]):
+                        hits.append(('backend_consistency', SITE_TH, 'reference driving force at x_alpha(g)', dict(case, g=float(gs[k]), xalpha=float(xs[k]), reference=ref),
+                                     '%s T=%g: x_alpha(g=%g) = %r but the tangent-plane distance to the compound there (pycalphad alone) is %r (offset %g)' % (name, T, float(gs[k]), float(xs[k]), ref, off)))
             # the four methods: sign away from the solvus, value to the offset for a stoichiometric precipitate; every method
             # is asked on its own long-lived object, in sequence over the temperatures (default removeCache=False)
             vals = {'tangent': dd}
@@ -1108,6 +1240,87 @@ def sample_backend(ctx, quick, plan=None):
 
 
 # ==========================================================================================
+# (f) ExtraGibbsModel: the precipitate model that carries the Gibbs-Thomson energy GE
+SITE_XG = 'Thermodynamics.ExtraGibbsModel'
+_THERM = {}
+XG_SOURCES = [('alzr', 'AL3ZR'), ('almg', 'BETA_AL3MG2'), ('almgsi', 'MGSI_B_P'), ('almgsi', 'MG5SI6_B_DP'), ('almgsi', 'B_PRIME_L'),
+              ('almgsi', 'U1_PHASE'), ('almgsi', 'U2_PHASE'), ('cuti', 'CU4TI'), ('nicral', 'FCC_L12')]
+ALMGSI_PHASES = ['FCC_A1', 'MGSI_B_P', 'MG5SI6_B_DP', 'B_PRIME_L', 'U1_PHASE', 'U2_PHASE']
+
+
+def make_therm(key, method='tangent'):
+    """real kawin thermodynamics objects (pycalphad); formula units from 1 atom (AL3ZR, written 0.75 : 0.25) to 229 atoms
+    (BETA_AL3MG2, written 89 : 140)"""
+    from kawin.thermo import BinaryThermodynamics, MulticomponentThermodynamics
+    from kawin.tests.datasets import ALZR_TDB, ALMGSI_DB, NICRAL_TDB
+    with quiet():
+        if key == 'alzr':
+            return BinaryThermodynamics(ALZR_TDB, ['AL', 'ZR'], ['FCC_A1', 'AL3ZR'], drivingForceMethod=method)
+        if key == 'almg':
+            return BinaryThermodynamics(ALMGSI_DB, ['AL', 'MG'], ['FCC_A1', 'BETA_AL3MG2'], drivingForceMethod=method)
+        if key == 'cuti':
+            th = BinaryThermodynamics(os.path.join(REPO, 'examples', 'CuTi.tdb'), ['CU', 'TI'], ['FCC_A1', 'CU4TI'], drivingForceMethod=method)
+            th.setGuessComposition(0.15)
+            return th
+        if key == 'almgsi':
+            return MulticomponentThermodynamics(ALMGSI_DB, ['AL', 'MG', 'SI'], list(ALMGSI_PHASES), drivingForceMethod=method)
+        if key == 'nicral':
+            return MulticomponentThermodynamics(NICRAL_TDB, ['NI', 'AL', 'CR'], ['FCC_A1', 'FCC_L12'], drivingForceMethod=method)
+    raise ValueError(key)
+
+
+def therm_cached(key):
+    if key not in _THERM:
+        _THERM[key] = make_therm(key)
+    return _THERM[key]
+
+
+def gen_xg_case(rng):
+    key, phase = XG_SOURCES[int(rng.integers(0, len(XG_SOURCES)))]
+    return {'kind': 'xg', 'source': key, 'phase': phase, 'T': float(np.round(rng.uniform(400, 1100), 1)),
+            'GE': float(rng.choice([0.0, float(np.round(rng.uniform(0, 20000), 2)), float(np.round(-rng.uniform(0, 2000), 2))], p=[0.1, 0.8, 0.1])),
+            'u': [float(np.round(u, 4)) for u in rng.uniform(0.05, 1, 24)]}
+
+
+def run_xg_impl(c):
+    from pycalphad import variables as v
+    try:
+        m = therm_cached(c['source']).models[c['phase']]
+        sub, k = {}, 0
+        for sl, cons in enumerate(m.constituents):
+            cons = sorted(cons, key=str)
+            w = np.array(c['u'][k:k + len(cons)])
+            k += len(cons)
+            w = w / w.sum()
+            for sp, wi in zip(cons, w):
+                sub[v.Y(m.phase_name, sl, sp)] = float(wi)
+        sub.update({v.T: c['T'], v.GE: c['GE'], v.P: 101325.0, v.N: 1.0})
+        ev = lambda e: float(e.subs(sub).n()) if hasattr(e, 'subs') else float(e)
+        return {'err': None, 'ast': ev(m.ast), 'GM': ev(m.GM), 'G': ev(m.G), 'n': ev(m._site_ratio_normalization), 'cls': type(m).__name__}
+    except Exception as e:
+        return {'err': type(e).__name__ + ': ' + str(e)}
+
+
+def xg_term(c, im):
+    return 'chk_extra %s %s %s %s %s %s' % (RT, qlit(im['ast']), qlit(c['GE']), qlit(im['n']), qlit(im['GM']), qlit(im['G']))
+
+
+def xg_oracle(c, im):
+    """the Gibbs-Thomson energy g is an energy per mole of atoms of the precipitate (Vm (2 gamma / R + strain) with the
+    molar volume per mole of atoms): it must raise the molar energy by g, and the energy of the formula unit by g times
+    the atoms in the formula unit - the two energy properties describe the same precipitate"""
+    if im['err']:
+        return [('extra_energy', 'exception', 'raised ' + im['err'])]
+    sc = abs(im['ast']) + abs(c['GE'])
+    if abs(im['GM'] - (im['ast'] + c['GE'])) > 1e-10 * sc:
+        return [('extra_energy', 'molar energy', '%s %s: GM = %r, database energy %r + GE %r = %r' % (c['source'], c['phase'], im['GM'], im['ast'], c['GE'], im['ast'] + c['GE']))]
+    if abs(im['G'] / im['n'] - im['GM']) > 1e-10 * sc:
+        return [('extra_energy', 'formula energy', '%s %s (%g atoms per formula unit): G / atoms = %r but GM = %r at GE = %r (difference %r)' % (
+            c['source'], c['phase'], im['n'], im['G'] / im['n'], im['GM'], c['GE'], im['G'] / im['n'] - im['GM']))]
+    return []
+
+
+# ==========================================================================================
 def corpus_items():
     out = []
     p = os.path.join(VERIF, 'corpus', 'C12')
@@ -1124,7 +1337,8 @@ UNIT = {'ge': (gen_ge_case, run_ge_impl, ge_term, ge_oracle, SITE_GE),
         'curv': (gen_curv_case, run_curv_impl, curv_term, curv_oracle, SITE_CURV),
         'gt': (gen_gt_case, run_gt_impl, gt_term, gt_oracle, SITE_GT),
         'nb': (gen_nb_case, run_nb_impl, nb_term, nb_oracle, SITE_NB),
-        'lk': (gen_lk_case, run_lk_impl, lk_term, lk_oracle, SITE_LK)}
+        'lk': (gen_lk_case, run_lk_impl, lk_term, lk_oracle, SITE_LK),
+        'xg': (gen_xg_case, run_xg_impl, xg_term, xg_oracle, SITE_XG)}
 
 
 def verdict_bad(kind, v):
@@ -1144,6 +1358,8 @@ def verdict_bad(kind, v):
         return one('Gibbs-Thomson energy handed to getInterfacialComposition', v)
     if kind == 'nb':
         return one('volumetric driving force', v[0]) + one('Rcrit', v[1])
+    if kind == 'xg':
+        return one('ExtraGibbsModel.GM', v[0]) + one('ExtraGibbsModel.G', v[1])
     if kind == 'lk':
         return ([] if v[0] else ['RdrivingForceIndex differs']) + ([] if v[1] else ['PSDXalpha differs']) + ([] if v[2] else ['PSDXbeta differs'])
     if kind == 'bin':
@@ -1165,6 +1381,8 @@ def nontrivial(c, im):
         return True
     if k == 'nb':
         return im['vol'] > 0
+    if k == 'xg':
+        return abs(im['n'] - 1) > 1e-9 and c['GE'] != 0
     if k == 'lk':
         return any(a == -1 for a in c['xa'])
     return True
@@ -1177,7 +1395,7 @@ def eval_unit(ctx, cases, label):
     for i, (c, im) in enumerate(zip(cases, impls)):
         if im.get('err') and not (c['kind'] == 'ge' and im['err'] == 'IndexError'):
             continue
-        vals = [v for k in ('growth', 'g', 'xm', 'xp', 'A', 'B') for v in im.get(k, [])] + [im.get(k, 0.0) for k in ('vol', 'rc')]
+        vals = [v for k in ('growth', 'g', 'xm', 'xp', 'A', 'B') for v in im.get(k, [])] + [im.get(k, 0.0) for k in ('vol', 'rc', 'ast', 'GM', 'G', 'n')]
         if not all(math.isfinite(v) for v in vals):
             continue
         if c['kind'] == 'lk' and c['pattern'] == 'scattered':
@@ -1326,13 +1544,14 @@ def run(ctx):
     # ---- corpus first
     corp = corpus_items()
     corp_runs = [c for c in corp if c.get('kind') == 'trace']
-    corp_unit = [c['input'] if 'input' in c and 'kind' in c.get('input', {}) else c for c in corp if c.get('kind') != 'trace']
+    corp_unit = [c['input'] if 'input' in c and 'kind' in c.get('input', {}) else c for c in corp if c.get('kind') not in ('trace', 'backend')]
+    corp_backend = [c for c in corp if c.get('kind') == 'backend']
     hits_t, dis_t = run_traces(ctx, [c['config'] for c in corp_runs], 'corpus', 6) if corp_runs else ([], [])
     # ---- unit correspondence + oracles
     nge, nother = (120, 60) if quick else (1500, 600)
     cases = list(corp_unit)
     cases += [gen_ge_case(ctx.rng) for _ in range(nge)]
-    for k in ('curv', 'gt', 'nb', 'lk'):
+    for k in ('curv', 'gt', 'nb', 'lk', 'xg'):
         cases += [UNIT[k][0](ctx.rng) for _ in range(nother if k != 'lk' else nother // 2)]
     t0 = time.time()
     dis_u, hits_u = eval_unit(ctx, cases, 'main')
@@ -1351,9 +1570,15 @@ def run(ctx):
     tm['runs'] = round(time.time() - t0, 1)
     # ---- backend sampling
     t0 = time.time()
-    hits_b = sample_backend(ctx, quick)
+    hits_b = []
+    for c in corp_backend:
+        inp = c['input']
+        hits_b += sample_backend(ctx, quick, {'system': inp['system'], 'Ts': inp['temperatures_queried_on_the_same_objects'], 'g': inp['g']})
+    hits_b += sample_backend(ctx, quick)
+    hits_b += sample_backend_multi(ctx, quick)
     tm['backend'] = round(time.time() - t0, 1)
     ctx.notes['phase_wall_s'] = tm
+    print('C12 phases (s):', tm)
 
     found = bool(hits_u or hits_t or hits_b)
     if (failed or dis_u or dis_t) and not found:
@@ -1362,7 +1587,7 @@ def run(ctx):
         h3, d3 = run_traces(ctx, more, 'search', 4)
         hits_t += h3
         dis_t += d3
-        cases2 = [UNIT[k][0](ctx.rng) for k in ('ge', 'curv', 'gt', 'nb', 'lk') for _ in range(150)]
+        cases2 = [UNIT[k][0](ctx.rng) for k in ('ge', 'curv', 'gt', 'nb', 'lk', 'xg') for _ in range(150)]
         d4, h4 = eval_unit(ctx, cases2, 'search')
         dis_u += d4
         hits_u += h4
@@ -1417,9 +1642,12 @@ def replay(ctx, obj):
     elif kind == 'backend':
         inp = obj.get('input', {})
         plan = None
-        if 'temperatures_queried_on_the_same_objects' in inp:
-            plan = {'system': inp['system'], 'Ts': inp['temperatures_queried_on_the_same_objects'], 'g': inp['g']}
-        hits = sample_backend(ctx, True, plan)
+        if inp.get('system') == 'Al-Mg-Si':
+            hits = sample_backend_multi(ctx, True, {'Ts': inp['temperatures_queried_on_the_same_objects'], 'x': inp['x'], 'phase': inp['phase']})
+        else:
+            if 'temperatures_queried_on_the_same_objects' in inp:
+                plan = {'system': inp['system'], 'Ts': inp['temperatures_queried_on_the_same_objects'], 'g': inp['g']}
+            hits = sample_backend(ctx, True, plan)
         for h in hits:
             print('replay:', h[0], h[4])
         bad = len(hits)
